@@ -637,6 +637,7 @@ fn c19_wire(seed: u64, plugins_on: bool, rep: &Report) -> Result<(), String> {
         ("orders", "unlisted", false),
     ];
     let mut in_block = false;
+    let mut role_override = false;
     let mut qn = 0;
     for _ in 0..rng.range(30, 70) {
         qn += 1;
@@ -645,6 +646,17 @@ fn c19_wire(seed: u64, plugins_on: bool, rep: &Report) -> Result<(), String> {
             let sql = if in_block { "COMMIT" } else { "BEGIN" };
             in_block = !in_block;
             let _ = c.query(&format!("{} {}", sql, tag("p", &qid, "")), 8000).map_err(|(m, e)| format!("{:?} {}", e, summarize(&m)))?;
+            continue;
+        }
+        if rng.chance(1, 12) {
+            // an explicit role choice (switches the session's parser-based routing off): the plugins
+            // must keep judging every statement
+            let v = *rng.pick(&["primary", "any", "auto", "default"]);
+            let r = c.query(&format!("SET SERVER ROLE TO '{}'", v), 8000).map_err(|(m, e)| format!("{:?} {}", e, summarize(&m)))?;
+            if first_error(&r).is_none() {
+                rep.count("wire_set_server_role_before_statements", 1);
+                role_override = v != "auto" && v != "default";
+            }
             continue;
         }
         if rng.chance(1, 8) {
@@ -751,7 +763,7 @@ fn c19_wire(seed: u64, plugins_on: bool, rep: &Report) -> Result<(), String> {
             let sig = if proto_name == "extended_denied_parse_first" && arrivals(&cell).contains_key(&format!("{}x", qid)) {
                 "C19|denied_statement_reached_server|extended_batch_with_allowed_parse_after_denied_parse".to_string()
             } else {
-                format!("C19|denied_statement_reached_server|pos={}|spelling={}|{}", pos, spelling, proto_name)
+                format!("C19|denied_statement_reached_server|pos={}|spelling={}|{}{}", pos, spelling, proto_name, if role_override { "|after_set_server_role" } else { "" })
             };
             rep.violation(
                 &sig,
